@@ -32,6 +32,10 @@ def collect(desc, uni):
         pass
 
 
+class Plain:
+    """Attribute bag standing for avocado objects the code only reads attributes of (job, job.result)."""
+
+
 class Builder:
     def __init__(self, witness):
         self.w = witness
@@ -46,6 +50,11 @@ class Builder:
         table = {"TestNode": TestNode, "TestWorker": TestWorker, "TestSwarm": TestSwarm, "TestObject": TestObject,
                  "NetObject": NetObject, "VMObject": VMObject, "ImageObject": ImageObject,
                  "EdgeRegister": EdgeRegister, "Params": Params}
+        if name == "TestRunner":
+            from avocado_i2n.plugins.runner import TestRunner
+            return TestRunner
+        if name in ("Job", "JobResultSet"):
+            return Plain
         return table.get(name)
 
     def shell(self, rid):
@@ -57,8 +66,12 @@ class Builder:
         if cls == "Params":
             from virttest.utils_params import Params
             o = Params(dict(d["fields"].get("data", {})))
-        elif cls == "Result":
+        elif cls in ("Result", "JobResult"):
             o = {}
+        elif cls == "TestID":
+            from avocado.core.test_id import TestID
+            f = d["fields"]
+            o = TestID(f.get("uid", {}).get("v", ""), f.get("name", {}).get("v", ""))
         elif cls == "Spawner":
             o = mock.MagicMock(name="spawner")
         else:
@@ -98,9 +111,17 @@ class Builder:
                 continue
             if cls == "Result":
                 f = d["fields"]
-                for key, fld in (("name", "r_name"), ("status", "r_status"), ("time_elapsed", "r_time")):
+                for key, fld in (("name", "r_name"), ("status", "r_status"), ("time_elapsed", "r_time"), ("uid", "r_uid")):
                     if fld in f:
                         o[key] = self.val(f[fld])
+                continue
+            if cls == "JobResult":
+                f = d["fields"]
+                o["name"] = self.val(f["tid"]) if "tid" in f else None
+                o["status"] = self.val(f.get("j_status", {"t": "str", "v": "PASS"}))
+                o["time_elapsed"] = self.val(f.get("j_time", {"t": "str", "v": "1.0"}))
+                continue
+            if cls == "TestID":
                 continue
             if isinstance(o, mock.MagicMock):
                 continue
@@ -149,6 +170,48 @@ def install_otp_stub(b, w, stack):
     stack.enter_context(mock.patch.object(TestObject, "object_typed_params", stub))
 
 
+GHOST = {}
+IN_OLD = []
+
+
+def install_seams(b, w, stack, params):
+    """Seams (test runner, sleeping): scripted by the witness; every crossing is counted in GHOST."""
+    GHOST.clear()
+    seams = w.get("seams") or {}
+    if "TestRunner.run_test_task" in seams or "asyncio.sleep" in seams:
+        from avocado_i2n.plugins.runner import TestRunner
+        from avocado.core.test_id import TestID
+        script = list(seams.get("journal", []))
+
+        def deliver(runner, node, upto):
+            n = 0
+            while script and n < upto:
+                item = script.pop(0)
+                n += 1
+                if item.get("match"):
+                    tid = TestID(node.id_test.uid, node.params["name"])
+                else:
+                    tid = TestID(item.get("uid", "9"), item.get("name", "other"))
+                runner.job.result.tests.append({"name": tid, "status": item.get("status", "PASS"),
+                                                "time_elapsed": item.get("time", "1.0")})
+
+        holder = {}
+
+        async def run_test_task(self, node):
+            GHOST["run.calls"] = GHOST.get("run.calls", 0) + 1
+            holder["runner"], holder["node"] = self, node
+            if node.started_worker is None or node.started_worker.spawner is None:
+                raise RuntimeError("no worker is running the node")
+            deliver(self, node, seams.get("on_run", 1))
+
+        async def sleep(_):
+            GHOST["sleep.calls"] = GHOST.get("sleep.calls", 0) + 1
+            if "runner" in holder:
+                deliver(holder["runner"], holder["node"], seams.get("on_sleep", 1))
+        stack.enter_context(mock.patch.object(TestRunner, "run_test_task", run_test_task))
+        stack.enter_context(mock.patch("asyncio.sleep", sleep))
+
+
 def install_stubs(b, w, stack):
     """Summarised callees are stubbed with the values the model gave them (recorded in the witness)."""
     install_otp_stub(b, w, stack)
@@ -185,8 +248,11 @@ class SpecEnv:
         if dom == "BOOL":
             return [False, True]
         if isinstance(dom, tuple) and dom[0] == "Ref":
-            return list(self.b.by_class.get(dom[1], [])) + [o for c, l in self.b.by_class.items() for o in l
+            objs = list(self.b.by_class.get(dom[1], [])) + [o for c, l in self.b.by_class.items() for o in l
                                                             if c != dom[1] and self.is_sub(c, dom[1])]
+            if IN_OLD:      # quantifiers inside old(...) range over the pre-state objects
+                objs = [IN_OLD[-1](o) for o in objs]
+            return objs
         if isinstance(dom, (list, tuple, set, dict, range)):
             return list(dom)
         raise TypeError(f"domain {dom!r}")
@@ -231,10 +297,11 @@ class SpecEnv:
             "implies": lambda a, b: (not a) or b, "iff": lambda a, b: bool(a) == bool(b),
             "wf_map": lambda m: True, "keys_of": lambda m: list(m.keys()),
             "ite": lambda c, a, b: a if c else b, "allocated": lambda o: True,
-            "str_is_int": _str_is_int, "str_int": lambda s: int(s), "with_field": _with_field, "let": lambda v, fn: fn(v),
+            "str_is_int": _str_is_int, "str_int": lambda s: int(s), "with_field": _with_field, "let": lambda v, fn: fn(v), "ghost": lambda name, *a: GHOST.get(name, 0),
+            "DEFINITE": ["PASS", "FAIL", "ERROR", "WARN", "SKIP", "CANCEL", "INTERRUPTED"],
             "bridged_results_len": lambda n, i: sum(len(b.results) for b in list(n._bridged_nodes)[:i]),
             "filtered_len": lambda lst, flt, i: sum(1 for r in list(lst)[:i] if flt in r["name"]),
-            "__snap": self.snapshot, "__unsnap": getattr(self, "unsnap", lambda v: v),
+            **getattr(self, "helpers", {}),
         }
         for cname in ("TestNode", "TestWorker", "TestSwarm", "TestObject", "NetObject", "VMObject", "ImageObject",
                       "EdgeRegister", "Params"):
@@ -267,25 +334,49 @@ def _with_field(obj, field, value, fn):
 
 
 class OldRewriter(ast.NodeTransformer):
-    """old(E) -> (lambda p1=__snap['p1'], ...: E)()  : parameters rebound to the pre-state snapshot."""
+    """old(E) -> __tolive(__inold(lambda p1=__pre['p1'], ...: E'))  where E' is E with every variable bound by an
+    enclosing lambda (quantifier / let) translated to its pre-state counterpart (__toold)."""
 
     def __init__(self, pnames):
         self.pnames = pnames
+        self.bound = []
+        self.bound_outside = []
+        self.in_old = 0
+
+    def visit_Lambda(self, node):
+        names = [a.arg for a in node.args.args]
+        self.bound.append(names)
+        node.body = self.visit(node.body)
+        self.bound.pop()
+        return node
+
+    def visit_Name(self, node):
+        if self.in_old and isinstance(node.ctx, ast.Load) and (node.id == "result" or any(node.id in b for b in self.bound_outside)):
+            return ast.Call(func=ast.Name(id="__toold", ctx=ast.Load()), args=[node], keywords=[])
+        return node
 
     def visit_Call(self, node):
+        if isinstance(node.func, ast.Name) and node.func.id == "old" and len(node.args) == 1:
+            self.in_old += 1
+            saved = self.bound_outside
+            self.bound_outside = [list(b) for b in self.bound]
+            inner_bound = self.bound
+            self.bound = []
+            body = self.visit(node.args[0])
+            self.bound = inner_bound
+            self.bound_outside = saved
+            self.in_old -= 1
+            args = ast.arguments(posonlyargs=[], args=[ast.arg(arg=p) for p in self.pnames], kwonlyargs=[],
+                                 kw_defaults=[], defaults=[
+                                     ast.Subscript(value=ast.Name(id="__pre", ctx=ast.Load()), slice=ast.Constant(p), ctx=ast.Load())
+                                     for p in self.pnames])
+            lam = ast.Lambda(args=args, body=body)
+            call = ast.Call(func=ast.Name(id="__inold", ctx=ast.Load()), args=[lam], keywords=[])
+            return ast.Call(func=ast.Name(id="__tolive", ctx=ast.Load()), args=[call], keywords=[])
         self.generic_visit(node)
         if isinstance(node.func, ast.Name) and node.func.id == "implies" and len(node.args) == 2:
             # lazy implication: the consequent is only evaluated when the antecedent holds
             return ast.BoolOp(op=ast.Or(), values=[ast.UnaryOp(op=ast.Not(), operand=node.args[0]), node.args[1]])
-        if isinstance(node.func, ast.Name) and node.func.id == "old" and len(node.args) == 1:
-            args = ast.arguments(posonlyargs=[], args=[ast.arg(arg=p) for p in self.pnames], kwonlyargs=[],
-                                 kw_defaults=[], defaults=[
-                                     ast.Subscript(value=ast.Name(id="__snap", ctx=ast.Load()), slice=ast.Constant(p), ctx=ast.Load())
-                                     for p in self.pnames])
-            lam = ast.Lambda(args=args, body=node.args[0])
-            call = ast.Call(func=lam, args=[], keywords=[])
-            # objects of the snapshot are translated back to the live objects they are copies of (identity)
-            return ast.Call(func=ast.Name(id="__unsnap", ctx=ast.Load()), args=[call], keywords=[])
         return node
 
 
@@ -315,65 +406,99 @@ def replay(w, repo):
         b.fill_all()
     call = w["call"]
     verdict = {"status": "ok", "obligation": w.get("obligation"), "violated": [], "held": [], "errors": []}
+    from avocado_i2n.cartgraph import TestSwarm as _TS
+    pre_swarms = _TS.run_swarms
+    memo = {}
+    world = copy.deepcopy({"params": params, "swarms": pre_swarms, "objs": list(b.objs.values())}, memo)
+    live_params = world["params"]
+    fwd = {oid: cp for oid, cp in memo.items() if not isinstance(cp, (int, str, float, bool, type(None)))}
+    back = {}
+    originals = {}
+
+    def index(o, depth=0):
+        if id(o) in originals or depth > 10 or isinstance(o, (int, str, float, bool, type(None))):
+            return
+        originals[id(o)] = o
+        if isinstance(o, dict):
+            for k, v in o.items():
+                index(k, depth + 1)
+                index(v, depth + 1)
+        elif isinstance(o, (list, tuple, set)):
+            for v in o:
+                index(v, depth + 1)
+        elif hasattr(o, "__dict__"):
+            for v in list(o.__dict__.values()):
+                index(v, depth + 1)
+    index(params)
+    index(pre_swarms)
+    for o in b.objs.values():
+        index(o)
+    for oid, cp in fwd.items():
+        if oid in originals:
+            back[id(cp)] = originals[oid]
+
+    def tolive(v, depth=0):
+        if isinstance(v, (int, str, float, bool, type(None))) or depth > 6:
+            return v
+        if id(v) in fwd and not isinstance(v, (list, tuple, set)) and type(v) is not dict:
+            return fwd[id(v)]
+        if isinstance(v, list):
+            return [tolive(x, depth + 1) for x in v]
+        if isinstance(v, tuple):
+            return tuple(tolive(x, depth + 1) for x in v)
+        if isinstance(v, set):
+            return {tolive(x, depth + 1) for x in v}
+        if isinstance(v, dict):
+            try:
+                return {tolive(k, depth + 1): tolive(x, depth + 1) for k, x in v.items()}
+            except Exception:
+                return v
+        return v
+
+    def toold(v):
+        return back.get(id(v), v)
+
+    def inold(fn):
+        cur = _TS.run_swarms
+        _TS.run_swarms = pre_swarms
+        IN_OLD.append(toold)
+        try:
+            return fn()
+        finally:
+            IN_OLD.pop()
+            _TS.run_swarms = cur
+    # from here on the live world is the copy; the originals stay untouched as the pre-state
+    _TS.run_swarms = world["swarms"]
+    for cls_name, lst in list(b.by_class.items()):
+        b.by_class[cls_name] = [fwd.get(id(o), o) for o in lst]
+    b.objs = {rid: fwd.get(id(o), o) for rid, o in b.objs.items()}
+    params = live_params
     with contextlib.ExitStack() as stack:
         install_stubs(b, w, stack)
         pnames = list(params.keys())
-        memo = {}
-        snapshot = copy.deepcopy(params, memo)
-        back = {}
-        keep = []
-        for oid, cp in memo.items():
-            if isinstance(cp, (int, str, float, bool, type(None))):
-                continue
-            back[id(cp)] = oid
-        live = {}
-
-        def index(o, depth=0):
-            if id(o) in live or depth > 8 or isinstance(o, (int, str, float, bool, type(None))):
-                return
-            live[id(o)] = o
-            if isinstance(o, dict):
-                for k, v in o.items():
-                    index(k, depth + 1)
-                    index(v, depth + 1)
-            elif isinstance(o, (list, tuple, set)):
-                for v in o:
-                    index(v, depth + 1)
-            elif hasattr(o, "__dict__"):
-                for v in list(o.__dict__.values()):
-                    index(v, depth + 1)
-        index(params)
-        for o in b.objs.values():
-            index(o)
-
-        def unsnap(v):
-            if isinstance(v, (int, str, float, bool, type(None))):
-                return v
-            if id(v) in back and back[id(v)] in live and not isinstance(v, (list, dict, set, tuple)):
-                return live[back[id(v)]]
-            if isinstance(v, list):
-                return [unsnap(x) for x in v]
-            if isinstance(v, tuple):
-                return tuple(unsnap(x) for x in v)
-            if isinstance(v, set):
-                return {unsnap(x) for x in v}
-            return v
+        snapshot = {k: toold(v) for k, v in params.items()}
         env0 = SpecEnv(b, uni, params, snapshot)
-        env0.unsnap = unsnap
+        env0.helpers = {"__pre": snapshot, "__toold": toold, "__tolive": tolive, "__inold": inold}
         for r in w.get("requires", []):
             try:
                 if not spec_eval(r, env0.names(), pnames):
                     verdict["status"] = "precondition-violated"
                     verdict["errors"].append(f"requires {r!r} is false on the reified input")
+                    _TS.run_swarms = pre_swarms
                     return verdict
             except Exception as e:
                 verdict["errors"].append(f"requires {r!r}: {type(e).__name__}: {e}")
+        install_seams(b, w, stack, params)
         outcome, result, exc = "return", None, None
         try:
             if call["how"] == "method":
                 recv = params[call["self"]]
                 args = [params[a] for a in call["args"]]
                 result = getattr(recv, call["name"])(*args)
+                import inspect
+                if inspect.iscoroutine(result):
+                    import asyncio
+                    result = asyncio.run(result)
             elif call["how"] == "property":
                 result = getattr(params[call["self"]], call["name"])
             elif call["how"] == "function":
@@ -388,7 +513,7 @@ def replay(w, repo):
             outcome, exc = "raise", e
         verdict["outcome"] = outcome if outcome == "return" else f"raise {type(exc).__name__}: {exc}"
         env = SpecEnv(b, uni, dict(params, result=result), snapshot)
-        env.unsnap = unsnap
+        env.helpers = env0.helpers
         names = env.names()
         if outcome == "return":
             try:
@@ -426,4 +551,5 @@ def replay(w, repo):
                             verdict["held"].append(f"raises.{listed[0]}.only_when")
                     except Exception as e:
                         verdict["errors"].append(f"raises {listed[0]}: {type(e).__name__}: {e}")
+    _TS.run_swarms = pre_swarms
     return verdict
